@@ -266,6 +266,55 @@ def check_growth(ctx):
     ctx.ob('R11.5-division-window', 'Volume.cell_divided', ok, ctx.loc('types', f), 'the plain Volume never divides', '')
 
 
+def check_volume_clock(ctx):
+    """The volume is stepped on the dt grid for the whole run: inside the main loop of VolumeSSASimulator the time of the next volume step
+    is only ever moved on by one dt (never parked beyond the end of the run, never reset) - whatever the size of the last growth step."""
+    f = ctx.fn('simulator:VolumeSSASimulator.volume_simulate')
+    loops = [n for n in f.body if isinstance(n, ast.While)]
+    if len(loops) != 1:
+        loops = [n for n in ast.walk(f) if isinstance(n, ast.While)][:1]
+    if not loops:
+        raise AnalysisError('VolumeSSASimulator.volume_simulate: main loop not found')
+    lp = loops[0]
+    # the clock variable: the local that the current time is set to when the volume step wins
+    clock = None
+    for n in ast.walk(lp):
+        if isinstance(n, ast.Assign) and len(n.targets) == 1 and src(n.targets[0]) == 'current_time' and isinstance(n.value, ast.Name) \
+                and n.value.id != 'proposed_time' and 'queue' in n.value.id:
+            clock = n.value.id
+    if clock is None:
+        ctx.note('R11.2-volume-clock: the volume clock variable was not identified; no verdict from this rule')
+        return
+    step_names = {'delta_t'}
+    for n in ast.walk(f):
+        if isinstance(n, (ast.Assign, ast.AnnAssign)) and getattr(n, 'value', None) is not None:
+            t_ = n.targets[0] if isinstance(n, ast.Assign) else n.target
+            if isinstance(t_, ast.Name) and isinstance(n.value, ast.Name) and n.value.id in step_names:
+                step_names.add(t_.id)
+    problems = []
+    n_adv = 0
+    for n in ast.walk(lp):
+        tgt = None
+        if isinstance(n, ast.Assign) and len(n.targets) == 1:
+            tgt, val = n.targets[0], n.value
+        elif isinstance(n, ast.AugAssign):
+            tgt, val = n.target, ast.BinOp(left=n.target, op=n.op, right=n.value)
+        if tgt is None or not (isinstance(tgt, ast.Name) and tgt.id == clock):
+            continue
+        val = util.strip_cast(val)
+        ok = isinstance(val, ast.BinOp) and isinstance(val.op, ast.Add) and \
+            ((src(val.left) == clock and src(val.right) in step_names) or (src(val.right) == clock and src(val.left) in step_names))
+        if ok:
+            n_adv += 1
+        else:
+            problems.append('`%s` (%s): the next volume step is not "one dt later"' % (util.stmt_key(n)[:70], ctx.loc('simulator', n)))
+    if n_adv == 0:
+        problems.append('the volume clock %s is never advanced in the loop' % clock)
+    ctx.ob('R11.2-volume-clock', 'VolumeSSASimulator', not problems, ctx.loc('simulator', lp),
+           'the time of the next volume step only moves on by one dt: volume growth and the division test run at every dt until the run ends',
+           '; '.join(problems[:2]))
+
+
 def check(ctx):
     prog = ctx.prog
     prog.mod('types'); prog.mod('types.pxd'); prog.mod('simulator'); prog.mod('simulator.pxd')
@@ -287,6 +336,7 @@ def check(ctx):
             pr_, n_ = [], 0
         ctx.ob('R11.2-event-race', key, not pr_ and not pr2_, sl_.where, RACE_WHAT % (n_, n2_), '; '.join((pr2_ + pr_)[:2]))
     check_growth(ctx)
+    check_volume_clock(ctx)
     # a 'general' rate sees the volume through its compiled expression: every node computes its operator over its children evaluated
     # with the same volume, and the translation builds the tree of the written formula (C02 R2.1 / R2.2) - re-emitted here
     from ..core import SubCtx
